@@ -550,7 +550,16 @@ fn read_pipeline_layout(f: &syn::ItemFn, out: &mut Out) {
     }
 }
 
+/// proc-macro2 (built with `span-locations`, which the reader needs for line numbers, and which
+/// cargo's feature unification also switches on for the code under test) keeps every parsed source in
+/// a thread-local map indexed by u32: after 4 GiB of parsed text it overflows. No span is kept across
+/// calls (only line numbers and token text are), so the map is dropped before every parse.
+pub fn reset_span_map() {
+    proc_macro2::extra::invalidate_current_thread_spans();
+}
+
 pub fn read(text: &str) -> Result<Out, String> {
+    reset_span_map();
     let file = syn::parse_file(text).map_err(|e| format!("output is not a Rust file: {e}"))?;
     let mut out = Out {
         structs: vec![],
@@ -672,6 +681,7 @@ impl Out {
 /// normalisations of DESIGN §4.6 (trailing comma before a closing delimiter dropped; `;` directly
 /// after a `}` that closes a block-like expression statement dropped).
 pub fn norm_tokens(text: &str) -> Result<Vec<String>, String> {
+    reset_span_map();
     let ts: TokenStream = text.parse().map_err(|e| format!("does not tokenise: {e}"))?;
     let mut out = Vec::new();
     flatten(ts, &mut out);
